@@ -93,7 +93,12 @@ def run(rep, tier, rng):
             for props in ([], ["unitary"], ["positive"], ["unitary", "positive"], ["bogus"], ["unitary", "bogus"]):
                 with warnings.catch_warnings(record=True) as rec:
                     warnings.simplefilter("always")
-                    o = c.outcome(lambda: next(vg.VectorsWithProperties(d, set(props), A, rng=np.random.RandomState(seed))))
+                    gen_box = []
+
+                    def first():
+                        gen_box.append(vg.VectorsWithProperties(d, set(props), A, rng=np.random.RandomState(seed)))
+                        return next(gen_box[0])
+                    o = c.outcome(first)
                 warned = any("only positive unitary" in str(w.message) for w in rec)
                 rep.case(("props", al, d, tuple(props)))
                 rep.count("vectors-with-properties")
@@ -115,6 +120,20 @@ def run(rep, tier, rng):
                     add(f"rel_hrr_positive {algs.enc_vec(v)} {REL}", dict(base, op="property-positive"), ("p-positive", al, d, tuple(props)))
                 if not props:
                     add(f"rel_unit_norm {algs.enc_vec(v)} {REL}", dict(base, op="property-none-unit"), ("p-none", al, d))
+                # the generator keeps its properties: later vectors have them too
+                for later in (1, 2):
+                    with warnings.catch_warnings():
+                        warnings.simplefilter("ignore")
+                        ol = c.outcome(lambda: next(gen_box[0]))
+                    if ol[0] != "ok":
+                        rep.violation(f"VectorsWithProperties({props}) for {al} raised {ol[0]} on vector number {later + 1}", {"case": base})
+                        break
+                    vl = np.asarray(ol[1])
+                    bl = dict(base, v=vl.tolist(), index=later)
+                    if "unitary" in props and not (al != "AHrr" and "positive" in props):
+                        add(f"rel_unitary {al} {algs.enc_vec(vl)} {REL}", dict(bl, op="property-unitary-later-vector"), ("p-unitary", al, d, tuple(props), later))
+                    if "positive" in props and al == "AHrr":
+                        add(f"rel_hrr_positive {algs.enc_vec(vl)} {REL}", dict(bl, op="property-positive-later-vector"), ("p-positive", al, d, tuple(props), later))
                 if al != "AHrr" and set(props) == {"unitary", "positive"}:
                     ident = A.identity_element(d, sidedness=E.RIGHT)
                     if not (np.allclose(v, ident) and warned):
@@ -157,6 +176,23 @@ def run(rep, tier, rng):
                 dbl = G(2 * offset)[0]
                 add(f"rel_hrr_bind_eq {algs.enc_vec(vs[0])} {algs.enc_vec(vs[0])} {algs.enc_vec(dbl)} (1%Z, 10000000%Z)",
                     dict(base, op="spaced-offsets-add"), ("sp-add", d, n, offset))
+
+    # ---- exactly n vectors of length d for every (d, n, offset) of a dense grid ---------------------------------
+    for d in range(2, 41 if quick else 65):
+        for n in range(1, 21 if quick else 33):
+            for offset in (0, 0.3, 0.7, 2, 3):
+                rep.count("spaced-count")
+                try:
+                    k = sum(1 for v in vg.EquallySpacedPositiveUnitaryHrrVectors(d=d, n=n, offset=offset) if len(v) == d)
+                except Exception as e:  # noqa
+                    k = type(e).__name__
+                if k != n:
+                    rep.case(("sp-count", d, n, offset))
+                    rep.violation(f"EquallySpacedPositiveUnitaryHrrVectors(d={d}, n={n}, offset={offset}) yielded {k} vectors of length d, expected {n}",
+                                  {"case": {"d": d, "n": n, "offset": offset},
+                                   "python": "from nengo_spa.vector_generation import EquallySpacedPositiveUnitaryHrrVectors as G\n"
+                                             f"assert len(list(G(d={d}, n={n}, offset={offset}))) == {n}\n"})
+    rep.case(("sp-count-grid", quick))
 
     verdicts = c.coq_eval("C19", "cases", IMPORTS, exprs, shard=120)
     for ok, m in zip(verdicts, meta):
